@@ -30,9 +30,9 @@ theorem job_gone_implies_tasks_gone {ok : Sys → Action → Prop} {j0 : JobObj}
     (hgone : (step s a).job = none) :
     a = .work ∧ s.jobCache = some j ∧ j.job.deletionTimestamp.isSome = true ∧
     (∀ r ∈ j.job.status.tasks, getTaskForRef s j r = none ∧ liveGetTask s j r.name = none ∧
-      ∀ p, findPod s.pods r.name = some p → p.ownerUid = some j.uid → podTask p = none) ∧
+      ∀ p, findPod s.pods r.name = some p → p.ownerUid = some j.uid → podTask s.clock p = none) ∧
     (∀ p ∈ s.podCache, p.jobLabel = some j.uid → p.ownerUid = some j.uid →
-      (∀ r ∈ j.job.status.tasks, r.name ≠ p.pod.name) → podTask p = none) ∧
+      (∀ r ∈ j.job.status.tasks, r.name ≠ p.pod.name) → podTask s.clock p = none) ∧
     finalizerTasks s j j.job = [] ∧
     (step s a).pods = s.pods := by
   obtain ⟨h1, h2, h3, h4', h5⟩ := gone_only_when_no_task (base_of_reach hr) a hal j hj hfin hgone
